@@ -29,11 +29,30 @@ def run_a(prop, tier, want, n_quick=1500, n_thorough=30000, gen_kwargs=None, dir
             obj = None
         cases.append(gen_a.make_case(node, obj, r, want)); origin.append(name)
     n_corpus = len(cases)
-    for _ in range(n):
+    # the previous pipelines stay alive while later ones are built and observed (pipelines are independent objects:
+    # no state may leak between them); every 4th step one of them is observed again and must answer as before
+    alive = collections.deque(maxlen=4)
+    interference = []
+    for step in range(n):
         node, obj = g.grow(r.choice(depth_choices))
-        cases.append(gen_a.make_case(node, obj, r, want)); origin.append('random')
+        c = gen_a.make_case(node, obj, r, want)
+        cases.append(c); origin.append('random')
+        if obj is not None and 'cycle' not in set(node.ops()):
+            first = next((e for e in c.entries if e[0][0] in ('iter', 'keys')), None)
+            if first is not None:
+                alive.append((c, obj, first))
+        if step % 4 == 3 and alive:
+            c0, obj0, e0 = alive[0]
+            try:
+                with common.watchdog(30, lambda: 're-observing ' + gen_a.coq_prog(c0.prog)):
+                    again = gen_a.run_query(obj0, e0[0])[2]
+            except Exception as ex:
+                again = ('crash', type(ex).__name__)
+            if repr(again) != repr(e0[3]):
+                interference.append(dict(kind='program', program=c0.prog.to_json(), coq_prog=gen_a.coq_prog(c0.prog), want=sorted(want),
+                                         summary=f'{gen_a.coq_prog(c0.prog)[:200]} :: {e0[0]} answered {e0[3]!r} at first and {again!r} after other pipelines had been built and used'[:700]))
     mm = gen_a.emit_and_run(cases, f'{prop}_{tier}')
-    failures = []
+    failures = list(interference)
     for ci, qs in mm:
         c = cases[ci]
         for qi, model_says in list(qs.items())[:3]:
